@@ -332,6 +332,19 @@ class JoinerEval:
                 if fn.attr in CASE_METHODS and not e.args and not e.keywords:
                     return t.cast(Sym, _case(self.expr(fn.value, env), CASE_METHODS[fn.attr]))
             if isinstance(fn, ast.Name) and fn.id not in env:
+                # a module-level helper of one `return` (a word-level casing function): evaluated on the symbolic arguments
+                hq = self.model.resolve(fn, self.a.table_mod)
+                hf = self.model.functions.get(hq or '')
+                if hf is not None and hf.cls is None and isinstance(hf.node, ast.FunctionDef) and not e.keywords and len(hf.params) == len(e.args) \
+                        and getattr(self, '_depth', 0) < 4:
+                    hbody = [s_ for s_ in hf.node.body if not (isinstance(s_, ast.Expr) and isinstance(s_.value, ast.Constant))]
+                    if len(hbody) == 1 and isinstance(hbody[0], ast.Return) and hbody[0].value is not None:
+                        henv: t.Dict[str, Sym] = {p_: self.expr(a_, env) for p_, a_ in zip(hf.params, e.args)}
+                        self._depth = getattr(self, '_depth', 0) + 1
+                        try:
+                            return self.expr(hbody[0].value, henv)
+                        finally:
+                            self._depth -= 1
                 if fn.id == 'enumerate' and len(e.args) == 1 and not e.keywords:
                     seq = self.expr(e.args[0], env)
                     if isinstance(seq, Seq) and seq.first is not None:
@@ -1005,6 +1018,36 @@ def rule_c20_r6(model: Model) -> RuleResult:
                    "styled form no longer converts back to the snake_case name it came from (and distinct names collide)")
         else:
             r.ok()
+    return r
+
+
+def rule_c20_r7(model: Model) -> RuleResult:
+    """``obj.dict(rename=style)``: every key is the styled spelling of the field's Python name, computed by rename_field itself."""
+    from .agreement import _split_phi
+    r = RuleResult('C20-R7', "PaneBase.dict(rename=...) names every key rename_field(<python name>, rename)", floor=2)
+    a = Anchors(model)
+    d = model.func('pane.classes.PaneBase.dict')
+    cfg = cfg_of(model, d)
+    nz = Normalizer(model, d, cfg, param_map={p_: (p_ if p_ in ('self', 'cls') else f'${p_}') for p_ in d.params})
+    r.analysed.add(d.qualname)
+    rq = a.rename.qualname
+    forms: t.List[str] = []
+    for n in cfg.live_nodes():
+        if n.kind == 'return' and n.ast is not None and n.ast.value is not None:
+            forms.extend(_split_phi(nz.expr(n.ast.value, n)))
+    if not forms:
+        raise AnalysisError(f"{d.loc()}: PaneBase.dict returns nothing")
+    for form in forms:
+        r.instances += 1
+        m_ = re.match(r'^DICT\((.*?): getattr\(', form)
+        key = m_.group(1) if m_ else None
+        r.sample({'dict() key': key})
+        if key is not None and re.fullmatch(re.escape(rq) + r'\((ELEM\(self\.__pane_info__\.fields\)\.name|ELEM\(self\.__pane_set__\)), \$rename\)', key):
+            r.ok()
+        else:
+            r.fail(d.qualname, f"key {str(key or form)[:100]}", d.loc(),
+                   "a key of dict(rename=style) is not the styled spelling of the field's Python name (a precomputed output name, which may "
+                   "be a field-level override, is used instead): the key does not convert back to the field name")
     return r
 
 
